@@ -15,6 +15,20 @@ from vf.checks import c14
 PID = 'C15'
 
 
+FAULT_KIND = ['epipe']     # how the stream reports that the consumer went away; every spelling is a BrokenPipeError
+
+
+def broken_pipe():
+    k = FAULT_KIND[0]
+    if k == 'bare':
+        return BrokenPipeError()                       # raised by a wrapping stream object: no errno at all
+    if k == 'eshutdown':
+        return BrokenPipeError(errno.ESHUTDOWN, 'Cannot send after transport endpoint shutdown')    # what the OS reports for a shut-down socket
+    if k == 'message_only':
+        return BrokenPipeError('consumer went away')
+    return BrokenPipeError(errno.EPIPE, 'Broken pipe')
+
+
 class FaultyText(object):
     def __init__(self, k):
         self.k = k
@@ -33,13 +47,13 @@ class FaultyText(object):
                     self.on_fault()
             else:
                 self.attempts_after_fault += 1
-            raise BrokenPipeError(errno.EPIPE, 'Broken pipe')
+            raise broken_pipe()
         self.accepted.append(s)
         return len(s)
 
     def flush(self):
         if self.broken_at_call is not None:
-            raise BrokenPipeError(errno.EPIPE, 'Broken pipe')
+            raise broken_pipe()
 
     def close(self):
         pass
@@ -67,7 +81,7 @@ class FaultyRaw(io.RawIOBase):
                     self.on_fault()
             else:
                 self.attempts_after_fault += 1
-            raise BrokenPipeError(errno.EPIPE, 'Broken pipe')
+            raise broken_pipe()
         self.accepted.append(bytes(b))
         return len(b)
 
@@ -126,6 +140,8 @@ def run_query(text, A, names, writer_factory, count_pulls):
 
 def part_pipe(sh, res):
     rc = tree.csvmod()
+    FAULT_KIND[0] = sh.get('exc', 'epipe')
+    res.feat('pipe_fault_kind_' + FAULT_KIND[0])
     for name, text, hdr in shapes()[sh['lo']:sh['hi']]:
         big = [[BASE[i % len(BASE)][0], 'v%d;w' % i] for i in range(300)]
         for A in tables() + ([[['k', 'L' * 3000 + ';z']] * 6] if sh['raw'] else []) + ([big] if name in ('streaming', 'header', 'unnest', 'sorted', 'update') else []):
@@ -158,7 +174,7 @@ def part_pipe(sh, res):
                 res.evaluations += 1
                 res.traces += 1
                 res.transitions += st.calls
-                case = {'kind': 'pipe', 'raw': sh['raw'], 'shape': name, 'query': text, 'rows': len(A), 'fault_at_write': k, 'writes_fault_free': W}
+                case = {'kind': 'pipe', 'raw': sh['raw'], 'shape': name, 'query': text, 'rows': len(A), 'fault_at_write': k, 'writes_fault_free': W, 'exception': repr(broken_pipe())}
                 acc = (b'' if sh['raw'] else '').join(st.accepted)
                 if k < W:
                     res.nontrivial += 1
@@ -408,6 +424,8 @@ def main(tier, seed):
     for i in range(n):
         shards.append({'part': 'pipe', 'raw': False, 'lo': i, 'hi': i + 1})
         shards.append({'part': 'pipe', 'raw': True, 'lo': i, 'hi': i + 1})
+        shards.append({'part': 'pipe', 'raw': False, 'lo': i, 'hi': i + 1, 'exc': ('bare', 'eshutdown', 'message_only')[i % 3]})
+        shards.append({'part': 'pipe', 'raw': True, 'lo': i, 'hi': i + 1, 'exc': ('eshutdown', 'message_only', 'bare')[i % 3]})
         shards.append({'part': 'protocol', 'lo': i, 'hi': i + 1})
     for s in SAMPLES:
         shards.append({'part': 'badbyte', 'sample': s})
@@ -418,7 +436,7 @@ def main(tier, seed):
              'states = fault points, transitions = environment calls answered; non-trivial = the fault actually struck before the run ended',
         assumptions=['a broken pipe stays broken (no recovery)', 'validity of a mutated byte string is decided by CPython\'s strict utf-8 codec', 'descriptors are compared through /proc/self/fd after gc.collect()'],
         extra={'shapes': [s[0] for s in shapes()]},
-        min_features={'faults_struck': 400, 'invalid_inputs': 5000, 'fd_error_paths': 40, 'writer_refusals': 300})
+        min_features={'faults_struck': 400, 'pipe_fault_kind_bare': 6, 'pipe_fault_kind_eshutdown': 6, 'pipe_fault_kind_message_only': 6, 'invalid_inputs': 5000, 'fd_error_paths': 40, 'writer_refusals': 300})
 
 
 def replay(rep):
